@@ -84,11 +84,28 @@ func routerExtras(repo string, files map[string]*ast.File) (map[string][]matched
 	const out = "GenRouter"
 	res := map[string][]matched{}
 	var errs []string
+	// when a shape is not recognised the anchor is reported as lost AND a neutral
+	// definition is emitted, so that the model and the correspondence check still
+	// compile (model_applicable becomes false, the proofs break at that lemma)
+	fallback := map[string]string{
+		"g_trysend_cases": "list str := (@nil str)", "g_trysend_has_default": "bool := false",
+		"g_sendifmatch_method": "str := ([] : str)", "g_sendifmatch_trysend": "bool := false",
+		"g_recv_req_shape": "list str := (@nil str)", "g_recv_event_shape": "list str := (@nil str)",
+		"g_recv_close_shape": "list str := (@nil str)", "g_serve_defers_unsuball": "bool := false",
+		"g_serve_queue_cap_is_buflen": "bool := false", "g_subs_subscribe_calls": "list str := (@nil str)",
+		"g_subs_unsubscribe_calls": "list str := (@nil str)", "g_subs_unsuball_calls": "list str := (@nil str)",
+		"g_subs_publish_calls": "list str := (@nil str)",
+		"g_safemap_locks": "list (str * (bool * bool * bool)) := (@nil (str * (bool * bool * bool)))",
+	}
 	add := func(name string, f func() matched) {
 		defer func() {
 			if r := recover(); r != nil {
 				if fl, ok := r.(failure); ok {
 					errs = append(errs, fmt.Sprintf("anchor %s: %s", name, fl.msg))
+					if fb, ok := fallback[name]; ok {
+						res[out] = append(res[out], matched{name, "?", "shape not recognised", 0, fl.msg,
+							fmt.Sprintf("Definition %s : %s.", name, fb)})
+					}
 					return
 				}
 				panic(r)
